@@ -111,3 +111,15 @@ func TestOffsets(t *testing.T) {
 		t.Error("before/after misclassified")
 	}
 }
+
+func TestIsUnaryPrefix(t *testing.T) {
+	for in, want := range map[string]bool{
+		"-": true, "*": true, "<-": true, "- ": true, "-!": true, "<- \n": true, "not ": true, "not": true, "!not ": true,
+		"+/* a\n b */ ": true, "- // c\n\t": true, "- /**/": true,
+		"": false, " -": false, "a": false, "-a": false, "<": false, "notx": false, "/": false, "/**/-": false, "- /*": false,
+	} {
+		if got := isUnaryPrefix([]byte(in)); got != want {
+			t.Errorf("isUnaryPrefix(%q) = %v, want %v", in, got, want)
+		}
+	}
+}
